@@ -263,6 +263,18 @@ def crc16_of(interp, rope):
     ctx = interp.ctx
     ctx.trusted.add("crc: crcmod 'crc-ccitt-false' == bit-serial CRC-16 (poly 0x1021, init 0xFFFF); crc16 uninterpreted in packet VCs, "
                     "with the residue lemma L-CRC-RES-IFF (proved per run in lemmas/crc) instantiated on ground terms")
+    if len(rope) >= 1 and isinstance(rope[-1], Blk):
+        # the string ends in a symbolic block of at least two octets (e.g. data[:packet_len] of a received packet):
+        # name its last two octets by refining the block in place (semantically a no-op, and no fork) so that the
+        # residue lemma below gets its ground instance
+        last = rope[-1]
+        if isinstance(last.n, int):
+            if last.n > 2:
+                ops.split_block(ctx, last, last.n - 2)
+                rope = ops.norm(rope)
+        elif ctx.valid(last.n >= 2):
+            ops.split_block(ctx, last, z3.simplify(last.n - 2))
+            rope = ops.norm(rope)
     t = CRC16(ops.rope_term(rope))
     ctx.assume(z3.And(t >= 0, t <= 65535))
     # ground instance of L-CRC-RES-IFF when the string ends in two literal elements
